@@ -205,6 +205,12 @@ class T(object):
         return key + (slice(None),) * (len(s._shape) - nreal)
 
     def __getitem__(s, key):
+        if isinstance(key, T) and not key.boolean:
+            # integer-array indexing on the first axis
+            rest = s._shape[1:]
+            kshape = key._shape
+            nk = len(kshape)
+            return T(kshape + rest, lambda idx: s.fn((key.fn(tuple(idx[:nk])),) + tuple(idx[nk:])), s.boolean)
         key = s._norm_key(key)
         outshape = []
         plan = []
@@ -477,6 +483,13 @@ class _NPX(object):
     """Proxy for the numpy module inside shadow chi modules.  Falls back to the real
     numpy for everything not overridden."""
     pi = S(sp.pi)
+
+    @property
+    def random(self):
+        from . import ghost
+        if not hasattr(self, '_random'):
+            self._random = ghost.RandomShim()
+        return self._random
     inf = float('inf')
     nan = float('nan')
     newaxis = None
@@ -518,12 +531,20 @@ class _NPX(object):
         a[...] = val
         return a
 
+    @staticmethod
+    def _plain_dtype(dtype):
+        return dtype is not None and dtype in (bool, int, _np.bool_, _np.int64, _np.int32, 'bool', 'int')
+
     def zeros(self, shape, dtype=None, **kw):
+        if self._plain_dtype(dtype) and not _sym_shape(_shape_arg(shape)):
+            return _np.zeros(_cshape(_shape_arg(shape)), dtype=dtype)
         if sym.CTX is None and not _sym_shape(_shape_arg(shape)):
             return _np.zeros(shape, dtype=dtype or float)
         return self._filled(shape, 0)
 
     def ones(self, shape, dtype=None, **kw):
+        if self._plain_dtype(dtype) and not _sym_shape(_shape_arg(shape)):
+            return _np.ones(_cshape(_shape_arg(shape)), dtype=dtype)
         if sym.CTX is None and not _sym_shape(_shape_arg(shape)):
             return _np.ones(shape, dtype=dtype or float)
         return self._filled(shape, 1)
